@@ -588,7 +588,7 @@ func newSystem(cfg Config, check func(s *system, x *sched.Execution)) *system {
 		vsync.PointHook, vsync.AcquireHook, vsync.ReleaseHook = sched.PointHook, sched.AcquireHook, sched.ReleaseHook
 	})
 	s := &system{cfg: cfg, states: map[uint64]struct{}{}}
-	s.ex = &sched.Explorer{MaxPoints: 600, WarmUp: 2}
+	s.ex = &sched.Explorer{MaxPoints: 600, WarmUp: 2, TolerateDivergence: true}
 	s.ex.Setup = func() []sched.ThreadSpec {
 		atomic.StoreInt64(&vnow, 0)
 		grace.ResetExpectations()
@@ -739,6 +739,10 @@ type replayData struct {
 	Choices []int   `json:"choices"`
 	Rollout string  `json:"rollout,omitempty"`
 	Solo    [][]int `json:"solo_schedules,omitempty"` // the solo reference schedules the verdict rests on
+	// Kind "leak": re-run the job (cfg, Job) until the recorded prefix fails to replay, then re-execute that prefix in
+	// fresh processes
+	Kind string `json:"kind,omitempty"`
+	Job  *Job   `json:"job,omitempty"`
 }
 
 // abnormal handles oracle (d) and the caps; returns a non-empty reason when the execution must not be compared.
@@ -861,6 +865,9 @@ type WorkerResult struct {
 	Caps           []string                 `json:"caps"`
 	WallS          float64                  `json:"wall_s"`
 	Error          string                   `json:"error,omitempty"`
+	// Divergence: a schedule prefix recorded earlier in this process did not replay (see judgeDivergence)
+	Divergence *sched.Divergence `json:"divergence,omitempty"`
+	DivBound   int               `json:"divergence_bound,omitempty"`
 }
 
 // soloBoundFor is the preemption bound of the solo reference systems (2 threads: cheap). The reference is
@@ -881,11 +888,20 @@ func RunJob(cfg Config, job Job, deadline time.Time) *WorkerResult {
 	res := &WorkerResult{Cfg: cfg, Job: job, BoundCompleted: -1, ByBound: map[string]int64{}, Interleavings: map[string]int64{}, SoloRefs: map[string]*Ref{}}
 	refs := map[string]*Ref{}
 	var soloExec int64
+	var soloViolations []map[string]interface{}
 	for _, ro := range cfg.rollouts() {
-		ref := soloRef(cfg, ro.Thread, soloBoundFor(job.Bound), nil, rep)
+		// "when it runs alone": alone in its process as well - the reference comes from a fresh process in which
+		// no other Rollout has ever been reconciled (a result cached process-wide under too coarse a key, say, would
+		// otherwise poison the reference in the same way as the run that is compared with it)
+		ref, vs, err := soloRefFresh(cfg, ro.Thread, soloBoundFor(job.Bound))
+		if err != nil {
+			res.Error = "solo reference process: " + err.Error()
+			return res
+		}
+		soloViolations = append(soloViolations, vs...)
 		refs[ro.Thread], res.SoloRefs[ro.Thread] = ref, ref
 		soloExec += ref.Scheds
-		if want := int64(ro.Grace); ref.Problem == "" && job.Shard == 0 {
+		if want := int64(ro.Grace); ref.Problem == "" && job.Shard == 0 && cfg.Mode == "" { // the gaps belong to the finalising
 			for _, g := range gapNames {
 				if ref.MinGap[g] != want {
 					rep.Warn(fmt.Sprintf("config %s: solo minimum of gap %s for Rollout %s is %ds, configured grace is %ds (reference not tight)", cfg.ID, g, ro.Thread, ref.MinGap[g], want))
@@ -920,6 +936,11 @@ func RunJob(cfg Config, job Job, deadline time.Time) *WorkerResult {
 		s.ex.Explore()
 		res.Executions += s.ex.Executions
 		res.Points += s.ex.PointsExecuted
+		if s.ex.Diverged != nil {
+			res.Divergence, res.DivBound = s.ex.Diverged, b
+			rep.NotExhaustive(fmt.Sprintf("config %s shard %d/%d: a recorded schedule prefix did not replay inside preemption bound %d after %d schedules (bound %d is complete)", cfg.ID, job.Shard, job.Shards, b, s.ex.Executions, b-1))
+			break
+		}
 		if s.ex.Stopped {
 			rep.NotExhaustive(fmt.Sprintf("config %s shard %d/%d: time budget ended inside preemption bound %d after %d schedules (bound %d is complete)", cfg.ID, job.Shard, job.Shards, b, s.ex.Executions, b-1))
 			break
@@ -935,7 +956,7 @@ func RunJob(cfg Config, job Job, deadline time.Time) *WorkerResult {
 	res.TimedOutcomes = len(timed)
 	res.Executions += soloExec
 	res.ImplCalls = atomic.LoadInt64(&implCalls)
-	res.Violations, res.Caps = rep.RawViolations(), rep.Caps()
+	res.Violations, res.Caps = append(soloViolations, rep.RawViolations()...), rep.Caps()
 	for _, wmsg := range rep.VacuityWarnings {
 		res.Caps = append(res.Caps, "WARN "+wmsg)
 	}
@@ -981,7 +1002,7 @@ func Worker(idx int, out string) {
 func Run(r *lib.Report) {
 	thorough := r.Thorough()
 	cfgs, jobs := Configs(thorough), Jobs(thorough)
-	r.Rule = "E2 (CHESS-style): for every closed system = scenario {two namespaces sharing the names echo/echo-canary; one namespace with names demo/demo-x, echo/echo-x} x grace variant {A=1s,B=3s; A=0s,B=2s} x every start offset of one Rollout inside the other's finalising, EVERY schedule of the threads {worker A, worker B, clock} with at most k preemptions (k = 0,1,.. up to the bound listed per config) is executed on the real trafficrouting.Manager.FinalisingTrafficRouting + the real process-global grace registry (sync shim: every Mutex/RWMutex operation and every API call is a scheduling point); depth-first over choice prefixes, no sampling, no state pruning. A preemption = switching away from a still-enabled running thread, an early clock tick (while a worker could run), or an early reconcile (before the requeue time). Non-trivial = schedules in which both Rollouts wrote to the store."
+	r.Rule = "E2 (CHESS-style): for every closed system = scenario {two namespaces sharing the names echo/echo-canary; one namespace with names demo/demo-x, echo/echo-x} x {both Rollouts finalising their traffic routing: grace variant {A=1s,B=3s; A=0s,B=2s} x every start offset of one Rollout inside the other's finalising | mode 'route': both Rollouts applying a traffic step through DoTrafficRouting, A to 10 %, B to 90 %, the shared Lua runtime computing each one's Ingress annotations; start offsets 0 and 1}, EVERY schedule of the threads {worker A, worker B, clock} with at most k preemptions (k = 0,1,.. up to the bound listed per config) is executed on the real trafficrouting.Manager.FinalisingTrafficRouting + the real process-global grace registry (sync shim: every Mutex/RWMutex operation and every API call is a scheduling point); depth-first over choice prefixes, no sampling, no state pruning. A preemption = switching away from a still-enabled running thread, an early clock tick (while a worker could run), or an early reconcile (before the requeue time). Non-trivial = schedules in which both Rollouts wrote to the store."
 	r.Assumptions = []string{
 		"Lengthening of a grace wait by another Rollout is NOT flagged: with a shared grace key `Expect` only overwrites the record time, which changes neither the final state nor any stated safety property (DESIGN.md §4 C19); only a gap SHORTER than the minimum over all solo schedules is a violation (the configured gracePeriodSeconds is observable behaviour).",
 		"Gap oracle events per Rollout: stable Service un-pin -> canary Ingress delete, canary Ingress delete -> canary Service delete, canary Service delete -> FinalisingTrafficRouting returning done (the last one stands for the writes the controller issues after finalising).",
@@ -990,7 +1011,7 @@ func Run(r *lib.Report) {
 		"A worker whose call returned `retry` blocks on the clock until now+RecheckDuration (what rollout_canary.go requeues with, at least one tick). Because any other event may trigger a reconcile earlier, an early wake-up (any time after the clock moved) is explored as well, at the cost of one preemption; thorough adds the variant in which every tick wakes every waiting worker for free.",
 		"Start offsets (the virtual second at which a Rollout's finalising begins) are part of the closed system and enumerated exhaustively over the other Rollout's solo duration; they are not schedule choices.",
 		"In the same-namespace scenario the two Rollouts use distinct network objects with similar names (echo / echo-x): two Rollouts on one and the same Service legitimately share state and are outside the property.",
-		"Store = controller-runtime fake client (one instance shared by both workers); objects carry explicit distinct UIDs. Only pkg/util/grace and pkg/util/expectation have their mutexes turned into scheduling points; data races are invisible to a cooperative scheduler (auxiliary -race stage, sampled, see coverage.aux_race_stage).",
+		"Store = controller-runtime fake client (one instance shared by both workers); objects carry explicit distinct UIDs. pkg/util/grace, pkg/util/expectation and pkg/util/luamanager (lock-free on the unchanged tree) have their mutexes turned into scheduling points; every exploration is preceded by two discarded executions of the default schedule (lazily built process-wide state reaches its steady state); a schedule prefix that does not replay is re-executed in three fresh processes: identical there = the code carries state from one execution into the next (C19/leak), different there = harness error; data races are invisible to a cooperative scheduler (auxiliary -race stage, sampled, see coverage.aux_race_stage).",
 	}
 	r.TrustedBase = []string{"harness/sched (scheduler)", "harness/shim/vsync.go.txt (sync shim)", "controller-runtime fake client", "std time overlay (virtual clock)"}
 	outDir := "/verif/.cache/e2/C19"
@@ -1032,6 +1053,11 @@ func Run(r *lib.Report) {
 	wg.Wait()
 	if harnessErr {
 		os.Exit(2)
+	}
+	for _, res := range results {
+		if res.Divergence != nil {
+			judgeDivergence(r, res.Cfg, res.Job, res.Divergence, res.Job.Cfg)
+		}
 	}
 	// merge the shards of every config
 	type agg struct {
@@ -1130,4 +1156,172 @@ func Run(r *lib.Report) {
 	r.Extra["per_config"] = table
 	r.Extra["horizon_points_per_execution"] = 600
 	r.Extra["aux_race_stage"] = raceStageSummary()
+}
+
+// ---------------------------------------------------------------- state carried from one execution into the next
+
+// Probe is `schedmc C19 --probe <config index> <choices json>`: ONE execution of the given schedule prefix
+// (default choices afterwards) in a fresh process, printed as a digest of everything the scheduler and the
+// oracles see.
+func Probe(cfgIdx int, choices []int) {
+	runtime.GOMAXPROCS(1)
+	cfgs := Configs(os.Getenv("VERIF_TIER") == "thorough")
+	if cfgIdx < 0 || cfgIdx >= len(cfgs) {
+		fmt.Println("HARNESS-ERROR bad config index")
+		os.Exit(2)
+	}
+	s := newSystem(cfgs[cfgIdx], nil)
+	s.ex.Check = func(x *sched.Execution) {}
+	x := s.ex.Run(choices, nil)
+	if x.Diverged {
+		fmt.Println("PROBE diverged")
+		return
+	}
+	h := fnv.New64a()
+	for _, p := range x.Points {
+		fmt.Fprintf(h, "%v/%d/%s;", p.Enabled, p.Chosen, p.Label)
+	}
+	for _, ro := range s.w.ros {
+		o := s.w.observe(ro)
+		fmt.Fprintf(h, "%s|%s|%v;", o.State, o.Writes, o.Done)
+	}
+	fmt.Printf("PROBE %016x points=%d\n", h.Sum64(), len(x.Points))
+}
+
+// freshProbes re-executes a schedule prefix n times, each in a fresh process, and returns the digests.
+func freshProbes(cfgIdx int, choices []int, n int) ([]string, error) {
+	b, _ := json.Marshal(choices)
+	var out []string
+	for i := 0; i < n; i++ {
+		cmd := exec.Command(os.Args[0], "C19", "--probe", fmt.Sprint(cfgIdx), string(b))
+		cmd.Dir, _ = os.Getwd()
+		o, err := cmd.Output()
+		if err != nil {
+			return out, fmt.Errorf("probe process: %v", err)
+		}
+		line := ""
+		for _, l := range strings.Split(string(o), "\n") {
+			if strings.HasPrefix(l, "PROBE ") {
+				line = l
+			}
+		}
+		if line == "" {
+			return out, fmt.Errorf("probe process printed no digest")
+		}
+		out = append(out, line)
+	}
+	return out, nil
+}
+
+// judgeDivergence decides what a replay divergence means. The harness owns every source of nondeterminism (on the
+// unchanged tree hundreds of thousands of prefixes replay identically), so there are two possibilities: the
+// harness lost control of something (then the same prefix also behaves differently from one FRESH process to the
+// next: HARNESS-ERROR, exit 2), or the code under test carries state from one execution - one pair of Rollouts,
+// one world - into the next through process-wide state that no reconcile resets (then fresh processes agree with
+// each other, and only the long-lived process disagrees with itself). The second is a violation of C19: what one
+// Rollout's reconciles left behind in the process changes what a later reconcile of another Rollout does.
+func judgeDivergence(r *lib.Report, cfg Config, job Job, d *sched.Divergence, cfgIdx int) {
+	digests, err := freshProbes(cfgIdx, d.Prefix, 3)
+	same := err == nil && len(digests) == 3 && digests[0] == digests[1] && digests[1] == digests[2] && digests[0] != "PROBE diverged"
+	if !same {
+		fmt.Printf("HARNESS-ERROR C19 config %s: schedule prefix %v did not replay (point %d, enabled now %v) and is not deterministic in fresh processes either: %v %v\n", cfg.ID, d.Prefix, d.At, d.EnabledNow, digests, err)
+		os.Exit(2)
+	}
+	j := job
+	r.Violate("C19/leak/behaviour-depends-on-earlier-executions",
+		fmt.Sprintf("config %s, preemption bound %d: the schedule prefix %v, recorded from an earlier execution in the same process, did not replay: at point %d the enabled threads are %v, recorded were %v. Executed in three fresh processes the same prefix behaves identically every time (%s), so the code is deterministic from a fresh start and the difference comes from state that an earlier execution (other Rollouts, another world) left behind in the process: process-wide state shared between Rollouts that is not reset between reconciles.",
+			cfg.ID, job.Bound, d.Prefix, d.At, d.EnabledNow, recordedEnabled(d), digests[0]),
+		replayData{Cfg: cfg, Kind: "leak", Job: &j})
+}
+
+func recordedEnabled(d *sched.Divergence) []int {
+	if d.At < len(d.Recorded) {
+		return d.Recorded[d.At].Enabled
+	}
+	return nil
+}
+
+// replayLeak re-runs the job until the prefix fails to replay, then the fresh-process probes.
+func replayLeak(r *lib.Report, rd replayData) {
+	cfgs := Configs(os.Getenv("VERIF_TIER") == "thorough")
+	idx := -1
+	for i := range cfgs {
+		if cfgs[i].ID == rd.Cfg.ID {
+			idx = i
+		}
+	}
+	if idx < 0 || rd.Job == nil {
+		fmt.Println("HARNESS-ERROR replay: config", rd.Cfg.ID, "is not part of this tier (set VERIF_TIER as in the recorded run)")
+		os.Exit(2)
+	}
+	fmt.Printf("re-running config %s (bound %d, shard %d/%d) until a recorded prefix fails to replay ...\n", rd.Cfg.ID, rd.Job.Bound, rd.Job.Shard, rd.Job.Shards)
+	res := RunJob(rd.Cfg, *rd.Job, time.VerifRealNow().Add(10*time.Minute))
+	if res.Divergence == nil {
+		fmt.Printf("every prefix replayed (%d executions): no state carried between executions\n", res.Executions)
+		return
+	}
+	fmt.Printf("prefix %v did not replay at point %d (enabled now %v); executing it in three fresh processes\n", res.Divergence.Prefix, res.Divergence.At, res.Divergence.EnabledNow)
+	judgeDivergence(r, rd.Cfg, *rd.Job, res.Divergence, idx)
+	for _, v := range r.RawViolations() {
+		fmt.Printf("verdict: %s\n", v["signature"])
+	}
+}
+
+// ---------------------------------------------------------------- solo references from fresh processes
+
+type soloOut struct {
+	Ref *Ref `json:"ref"`
+	// the parts of Ref that the evidence does not carry (json:"-")
+	States     map[string][]int         `json:"states"`
+	Writes     map[string][]int         `json:"writes"`
+	GapWit     map[string][]int         `json:"gap_witnesses"`
+	Violations []map[string]interface{} `json:"violations"`
+}
+
+// Solo is `schedmc C19 --solo <config json> <thread> <bound>`: the solo reference of one Rollout, computed in a
+// process of its own.
+func Solo(cfgJSON, which string, bound int) {
+	runtime.GOMAXPROCS(1)
+	var cfg Config
+	if err := json.Unmarshal([]byte(cfgJSON), &cfg); err != nil {
+		fmt.Println("HARNESS-ERROR bad config:", err)
+		os.Exit(2)
+	}
+	rep := lib.NewReport("C19")
+	ref := soloRef(cfg, which, bound, nil, rep)
+	b, _ := json.Marshal(soloOut{Ref: ref, States: ref.States, Writes: ref.Writes, GapWit: ref.GapWit, Violations: rep.RawViolations()})
+	fmt.Println("SOLOREF " + string(b))
+}
+
+func soloRefFresh(cfg Config, which string, bound int) (*Ref, []map[string]interface{}, error) {
+	cj, _ := json.Marshal(cfg)
+	cmd := exec.Command(os.Args[0], "C19", "--solo", string(cj), which, fmt.Sprint(bound))
+	cmd.Dir, _ = os.Getwd()
+	o, err := cmd.Output()
+	if err != nil {
+		return nil, nil, fmt.Errorf("%v: %s", err, firstN(string(o), 300))
+	}
+	for _, l := range strings.Split(string(o), "\n") {
+		if strings.HasPrefix(l, "SOLOREF ") {
+			var so soloOut
+			if err := json.Unmarshal([]byte(strings.TrimPrefix(l, "SOLOREF ")), &so); err != nil || so.Ref == nil {
+				return nil, nil, fmt.Errorf("cannot parse the solo reference: %v", err)
+			}
+			so.Ref.States, so.Ref.Writes, so.Ref.GapWit = so.States, so.Writes, so.GapWit
+			if so.Ref.States == nil {
+				so.Ref.States = map[string][]int{}
+			}
+			if so.Ref.Writes == nil {
+				so.Ref.Writes = map[string][]int{}
+			}
+			if so.Ref.GapWit == nil {
+				so.Ref.GapWit = map[string][]int{}
+			}
+			if so.Ref.MinGap == nil {
+				so.Ref.MinGap = map[string]int64{}
+			}
+			return so.Ref, so.Violations, nil
+		}
+	}
+	return nil, nil, fmt.Errorf("the solo process printed no reference")
 }
